@@ -379,9 +379,11 @@ def crashStep (line : String) : String :=
           if allowed.contains cls then "ok"
           else s!"DIVERGE crash-class-mismatch:{backend}.restore observed {cls} at boundary {bi} of {chunks} chunks, model predicts {allowed}"
         else
+          -- no model of pathbadger: the driver judges the class against the property itself; here
+          -- only "the last boundary is the new state"
           let lastB := bi + 1 == (Crash.restoreNames backend chunks).length
-          if (lastB && cls == "new") || (!lastB && (cls.endsWith "+retry-ok" || cls == "new")) then "ok"
-          else s!"DIVERGE crash-class-mismatch:{backend}.restore observed {cls} at boundary {bi} of {chunks} chunks"
+          if !lastB || cls == "new" then "ok"
+          else s!"DIVERGE crash-class-mismatch:{backend}.restore observed {cls} at the last boundary"
       else if backend == "badger" then
         let allowed := Crash.badgerCrashClasses kind bi (facts == "loneio=1")
         if allowed.contains cls then "ok"
@@ -389,8 +391,8 @@ def crashStep (line : String) : String :=
       else
         let n := (Crash.pathbadgerNames kind "ok" false).length - (if kind == "commit" then 2 else 0)
         let lastB := bi + 1 == (if kind == "commit" then n + 2 else n)
-        if (lastB && cls == "new") || (!lastB && (cls.endsWith "+retry-ok" || cls == "new")) then "ok"
-        else s!"DIVERGE crash-class-mismatch:{backend}.{kind}.{bi} observed {cls}"
+        if !lastB || cls == "new" then "ok"
+        else s!"DIVERGE crash-class-mismatch:{backend}.{kind}.{bi} observed {cls} at the last boundary"
   | [] => "ok"
   | _ => "DIVERGE bad-op"
 
